@@ -74,27 +74,14 @@ def runModel (f : File) (ops : List Op) : String :=
   | .ok r =>
     ";".intercalate ((r.run ops).map fun (o, r') => showRes o.bytes o.err r'.lastChunk r'.blockLen)
 
-def layoutOf (f : File) : Layout := f.map fun m => ⟨m.data.length, m.csize⟩
-def flatOf (f : File) : FlatFile := ⟨f.flatMap (·.data), layoutOf f⟩
+/-- The same history through the flat specification (`Hts.Spec.Flat.run`); BlockLen is not part of it. -/
+def showObs (o : Obs) : String :=
+  s!"{o.bytes.length}:{if o.eof then "eof" else "ok"}:{showOff o.last.bgn}:{showOff o.last.fin}:{hashBytes o.bytes}"
 
-/-- The same history through the flat specification; `-` for the fields the specification does not
-constrain (chunk after a failed read, BlockLen). -/
-def runFlat (F : FlatFile) : State → List Op → List String
-  | _, [] => []
-  | s, .read n :: ops =>
-    let r := read F s n
-    s!"{r.bytes.length}:{if r.eof then "eof" else "ok"}:{showOff r.st.last.bgn}:{showOff r.st.last.fin}:{hashBytes r.bytes}"
-      :: runFlat F r.st ops
-  | s, .readByte :: ops =>
-    let (c, eof, s') := readByte F s
-    s!"1:{if eof then "eof" else "ok"}:{showOff s'.last.bgn}:{showOff s'.last.fin}:{hashBytes [c]}"
-      :: runFlat F s' ops
-  | s, .seek o :: ops =>
-    match seek F s o with
-    | some s' => s!"0:ok:{showOff o}:{showOff o}:{hashBytes []}" :: runFlat F s' ops
-    | none => ["invalid-seek"]
-  | s, .setBlocked b :: ops =>
-    s!"0:ok:{showOff s.last.bgn}:{showOff s.last.fin}:{hashBytes []}" :: runFlat F (setBlocked s b) ops
+def validOps (L : Layout) : List Op → Bool
+  | [] => true
+  | .seek o :: ops => (seekTarget L o).isSome && validOps L ops
+  | _ :: ops => validOps L ops
 
 def handle (cmd : String) (args : List String) : Option String :=
   match cmd, args with
@@ -105,7 +92,9 @@ def handle (cmd : String) (args : List String) : Option String :=
   | "c02.flat", [blocks, ops] => do
     let f ← parseFile blocks
     let ops ← parseOps ops
-    some (";".intercalate (runFlat (flatOf f) init ops))
+    if validOps (layoutOf f) ops then
+      some (";".intercalate ((Hts.Spec.Flat.run (flatOf f) init ops).map showObs))
+    else some "invalid-history"
   | _, _ => none
 
 end Hts.Drv.C02
